@@ -1,10 +1,16 @@
 """C11 — Escape: TLC checks that the intended escaper is lossless and printable for every class sequence in the
 bound; every class sequence (several concrete representatives) and a sweep over all bytes / Unicode scalars is
 pushed through the real Escaper and read back through the real parser; TLC judges every record."""
+import concurrent.futures
 import json
 import os
+import shutil
+import subprocess
+import tempfile
 import time
+import unicodedata
 
+import lib
 from lib import *
 
 WHAT = "the text written for a line is not printable, does not read back as announced, does not match the original line, or matches a line with different content"
@@ -32,20 +38,80 @@ def classify(r):
         o, path = o["render"], "canonical-rendering"
     fail = "panic" if o["result"] != "ok" else "not-printable" if not o["printable_ok"] else "not-readable" if not o["parse_ok"] \
         else "does-not-match-original" if not o["matches_orig"] else "matches-other-line"
+    if r.get("leg") == "create":
+        path = "scrut-create"
     return f"{r['mode']}:{path}:{fail}:{'+'.join(feats or ['plain'])}"
+
+
+REP0 = {"P": b"z", "Px": b"x", "Ph": b"1", "P0": b"0", "Pe": b"t", "Pn": b"n", "B": b"\\", "T": b"\t", "Cn": b"\x07", "Cx": b"\x01",
+        "U": "\u00e9".encode(), "O": "\u0085".encode(), "I": b"\xff", "S": b" (esc)"}
+
+
+def create_leg_one(item):
+    """`scrut create --escaping <mode>` for the command that prints exactly this line, then `scrut test` on the created
+    document: the expectation line scrut wrote, whether it is printable for the mode, whether the test passes."""
+    rid, v = item
+    line = b"".join(REP0[c] for c in v["s"])
+    root = tempfile.mkdtemp(prefix="scrut-verif-esc-", dir=os.environ.get("VERIF_SCRATCH", "/tmp"))
+    rec = {"ev": "Load", "id": rid, "mode": v["mode"], "s": v["s"], "variant": 0, "line": list(line), "leg": "create"}
+    bad = lambda why: dict(rec, obs={"result": "panic", "msg": why, "text": [], "text_s": "", "marked": False, "printable_ok": False, "parse_ok": False,
+                                     "matches_orig": False, "neighbour_matches": 0, "render": {"result": "skip"}})
+    try:
+        cmd = "printf '" + "".join("\\%03o" % b for b in line) + "\\n'"
+        doc = os.path.join(root, "created.md")
+        env = dict(os.environ, TMPDIR=os.path.join(root, "tmp"), NO_COLOR="1")
+        env.pop("SCRUT_VERIF_TRACE", None)
+        os.makedirs(env["TMPDIR"])
+        c = subprocess.run([SCRUT_BIN, "create", "--no-color", "--escaping", v["mode"], "-o", doc, "--", cmd], cwd=root, env=env,
+                           stdout=subprocess.PIPE, stderr=subprocess.PIPE, timeout=60)
+        if c.returncode != 0 or not os.path.exists(doc):
+            return bad("create failed: " + c.stderr.decode("utf-8", "replace")[-200:])
+        body = open(doc, "rb").read().split(b"\n")
+        at = [i for i, l in enumerate(body) if l.startswith(b"$ ")]
+        end = [i for i, l in enumerate(body) if l.startswith(b"```") and at and i > at[0]]
+        if len(at) != 1 or not end or end[0] != at[0] + 2:
+            return bad("created document has not exactly one expectation line: " + repr(body[-6:]))
+        text = body[at[0] + 1]
+        try:
+            ts = text.decode("utf-8")
+            printable = all(32 <= ord(ch) <= 126 for ch in ts) if v["mode"] == "ascii" else all(not unicodedata.category(ch).startswith("C") for ch in ts)
+        except UnicodeDecodeError:
+            ts, printable = text.decode("utf-8", "replace"), False
+        if text == line and (line.endswith(b" (esc)") or line.endswith(b" (escaped)")):
+            return dict(rec, obs={"result": "collision", "msg": "", "text": list(text), "text_s": ts, "marked": False, "printable_ok": printable,
+                                  "parse_ok": False, "matches_orig": False, "neighbour_matches": 0, "render": {"result": "skip"}})
+        t = subprocess.run([SCRUT_BIN, "test", "--no-color", "-r", "json", doc], cwd=root, env=env, stdout=subprocess.PIPE, stderr=subprocess.PIPE, timeout=60)
+        passes = t.returncode == 0
+        return dict(rec, obs={"result": "ok", "msg": "" if passes else f"scrut test exit {t.returncode}", "text": list(text), "text_s": ts, "marked": text.endswith(b" (escaped)"),
+                              "printable_ok": printable, "parse_ok": passes, "matches_orig": passes, "neighbour_matches": 0, "render": {"result": "skip"}})
+    except subprocess.TimeoutExpired:
+        return bad("timeout")
+    finally:
+        shutil.rmtree(root, ignore_errors=True)
+
+
+def create_leg(vectors, tier, s):
+    """the binary-only leg: every class sequence up to length 2 (thorough: and a sample of longer ones), model representatives"""
+    import random
+    short = [v for v in vectors if 1 <= len(v["s"]) <= 2]
+    longer = [v for v in vectors if len(v["s"]) > 2]
+    rnd = random.Random(s * 31 + 5)
+    chosen = short + rnd.sample(longer, min(len(longer), 60 if tier == "quick" else 1500))
+    with concurrent.futures.ThreadPoolExecutor(max_workers=min(NCPU, 12)) as ex:
+        return list(ex.map(create_leg_one, [(20_000_000 + i, v) for i, v in enumerate(chosen)]))
 
 
 def run(prop, tier, replay=None):
     t0 = time.time()
     work = workdir(f"{prop}-{tier}")
-    build_s = build()
+    build_s = build(need_scrut_bin=True, allow_broken_harness=True)
     V = Verdicts(prop)
     s = seed()
     cov = {}
     n = 3 if tier == "quick" else 4
     cfg = os.path.join(work, "MC.cfg")
     with open(cfg, "w") as f:
-        f.write(f"SPECIFICATION Spec\nCONSTANTS\n  N = {n}\nINVARIANTS Lossless PrintOK Unmarked Emit\nCHECK_DEADLOCK FALSE\n")
+        f.write(f"SPECIFICATION Spec\nCONSTANTS\n  N = {n}\nINVARIANTS Lossless CollisionIsReal PrintOK Unmarked Emit\nCHECK_DEADLOCK FALSE\n")
     res = tlc("MC_Escape", cfg, work, workers=min(NCPU, 12), timeout=3000,
               line_filter=lambda l: l.startswith('<<"REPLAY"') or l.startswith("Error") or "violated" in l)
     tlc_must_pass(res, "Escape MC/GEN")
@@ -53,13 +119,18 @@ def run(prop, tier, replay=None):
     log(f"MC Escape: {res.distinct} (mode, class sequence) states up to length {n}: intended escaper is lossless and printable on all, {res.wall:.0f}s")
     vpath, rpath, spath = [os.path.join(work, x) for x in ("vectors.ndjson", "records.ndjson", "sweep.ndjson")]
     write_ndjson(vpath, vectors)
-    harness(["escape-replay", "--vectors", vpath, "--records", rpath, "--seed", s, "--variants", 3 if tier == "quick" else 6])
-    records = read_ndjson(rpath)
-    harness(["escape-sweep", "--records", spath, "--step", 97 if tier == "quick" else 1])
-    sweep = read_ndjson(spath)
+    created = create_leg(vectors, tier, s)
+    log(f"create leg: {len(created)} lines through `scrut create --escaping <mode>` and `scrut test` of the created document")
+    if lib.HARNESS_BROKEN[0]:
+        records, sweep = [], []
+    else:
+        harness(["escape-replay", "--vectors", vpath, "--records", rpath, "--seed", s, "--variants", 3 if tier == "quick" else 6])
+        records = read_ndjson(rpath)
+        harness(["escape-sweep", "--records", spath, "--step", 97 if tier == "quick" else 1])
+        sweep = read_ndjson(spath)
     for r in sweep:
         r["id"] = 10_000_000 + r["id"]
-    allrec = records + sweep
+    allrec = records + sweep + created
     tcfg = os.path.join(work, "Trace.cfg")
     with open(tcfg, "w") as f:
         f.write(f"SPECIFICATION TraceSpec\nCONSTANTS\n  N = {n}\nINVARIANTS Verdicts\nPOSTCONDITION Accepted\nCHECK_DEADLOCK FALSE\n")
@@ -85,15 +156,17 @@ def run(prop, tier, replay=None):
         r = byid[printed["DRIFT"][0][0]]
         V.add_drift(f"{len(printed['DRIFT'])} texts differ from the intended encoding, e.g. classes {r['s']} mode {r['mode']}: {r['obs'].get('text_s')!r}")
     code, nviol, known = V.finish()
+    if lib.HARNESS_BROKEN[0] and nviol == 0:
+        tool_error("harness build failed (does /repo still compile with --features verif?); the binary-only leg found no violation")
     cov.update({
         "states": res.distinct, "transitions": max(res.generated, 1), "traces_validated_against_impl": validated,
         "samples": [{"mode": r["mode"], "line_bytes": r["line"], "written": r["obs"].get("text_s")} for r in records[3000:3003]],
         "evaluations": len(allrec),
         "distinct_nontrivial": len({(r["mode"], bytes(r["line"])) for r in allrec if len(r["line"]) >= 2}),
         "rule": "one evaluation = escape one line, read the text back as an expectation, test it on the original and on ~8 neighbouring lines per character; non-trivial = at least 2 bytes; distinct by (mode, bytes)",
-        "sweep_records": len(sweep), "drift": len(printed["DRIFT"]),
+        "sweep_records": len(sweep), "create_leg_records": len(created), "drift": len(printed["DRIFT"]),
         "known_findings_seen": known, "build_s": round(build_s, 1), "exhaustive": False,
-        "bounds": f"all class sequences up to length {n} over 13 byte classes x 2 modes x {3 if tier == 'quick' else 6} concrete representatives; sweep: all 256 single bytes (alone and after a backslash), every {'97th' if tier == 'quick' else ''} Unicode scalar (all below U+3000)",
+        "bounds": f"all class sequences up to length {n} over 14 classes (13 byte classes and the marker-like word ` (esc)`) x 2 modes x {3 if tier == 'quick' else 6} concrete representatives; sweep: all 256 single bytes (alone and after a backslash), every {'97th' if tier == 'quick' else ''} Unicode scalar (all below U+3000)",
     })
     write_evidence(prop, tier, "model_checking", cov,
                    ["TLC", "the unicode_categories crate (also used by scrut) classifies characters for the 'printable' judgement in unicode mode",
